@@ -71,6 +71,8 @@ def _run(job):
         out = []
         if job["kind"] == "root":
             ctxs = [(job["target"], run.analyze_root(f, job["target"], job["model"]))]
+        elif job["kind"] == "bits":
+            ctxs = [("bits " + job["target"], run.analyze_bits(f, job["target"]))]
         elif job["kind"] == "frontend":
             ctxs = [(job["target"], run.analyze_frontend(f, job["target"]))]
             for name, ctx in ctxs:
